@@ -566,7 +566,7 @@ func (g *gen) groupSplit() {
 	// strings longer than 4096 runes (piece-wise analysis must not cut where a cluster continues)
 	for i := 0; i < 2+n/5000; i++ {
 		var sb strings.Builder
-		for sb.Len() < 4080 {
+		for sb.Len() < 4100 {
 			sb.WriteString(g.word(2, 9))
 			sb.WriteString(" ")
 		}
